@@ -83,9 +83,10 @@ pub fn run(_ctx: &Ctx) -> Report {
             rep.nontrivial_case(&format!("{}:{}", t, c));
         }
         if (t, c) == (18, 4) || (t, c) == (0, 0) || (t, c) == (192, 0) || (t, c) == (1, 191) {
-            let d = StarkDomains::new(fu(t as u64), fu(c as u64));
-            rep.samples.push(json!({"t": t, "c": c, "eval_generator": fhex(&d.eval_generator),
-                "trace_generator": fhex(&d.trace_generator), "verdict": class}));
+            if let Ok(d) = panics::catch(|| StarkDomains::new(fu(t as u64), fu(c as u64))) {
+                rep.samples.push(json!({"t": t, "c": c, "eval_generator": fhex(&d.eval_generator),
+                    "trace_generator": fhex(&d.trace_generator), "verdict": class}));
+            }
         }
         if let Some(b) = bad {
             rep.violation(
